@@ -70,6 +70,11 @@ impl Graph {
         match self.kind[a - 1] {
             'c' => {
                 let mut s = format!("const C{a}: usize = 1");
+                // Every other constant starts with the size of a pointer to a NON-structure type: it is no
+                // containment and must not disturb the recording of the references that follow it.
+                if (a + self.n) % 2 == 1 && !self.refs(a).is_empty() {
+                    s.push_str(" + |:&i32| - 8");
+                }
                 for (b, by_value) in self.refs(a) {
                     match (self.kind[b - 1], by_value) {
                         ('c', _) => s.push_str(&format!(" + C{b}")),
